@@ -25,10 +25,33 @@ class PromiseCore : public std::conditional_t<Shared, SharedCore<V, E>, UniqueCo
   using Base = std::conditional_t<Shared, SharedCore<V, E>, UniqueCore<V, E>>;
 
   explicit PromiseCore(Func&& f) : F{std::forward<Func>(f)} {
+    new (&this->_self) Callback{};
   }
 
+  [[nodiscard]] InlineCore* Here(InlineCore& caller) noexcept final {
+    return Impl<false>(caller);
+  }
+
+#if YACLIB_SYMMETRIC_TRANSFER != 0
+  [[nodiscard]] yaclib_std::coroutine_handle<> Next(InlineCore& caller) noexcept final {
+    return Impl<true>(caller);
+  }
+#endif
+
  private:
+  template <bool SymmetricTransfer>
+  [[nodiscard]] YACLIB_INLINE auto Impl(InlineCore& caller) noexcept {
+    if (this->_self.unwrapping == 0) {
+      // Not called yet: we are the head of a lazy pipeline that an outer step or a co_await starts right now,
+      // unlike the Promise of already called functor, which can be connected to some other Future
+      this->_executor->Submit(*this);
+      return Noop<SymmetricTransfer>();
+    }
+    return Base::template Impl<SymmetricTransfer, Shared>(caller);
+  }
+
   void Call() noexcept final {
+    this->_self.unwrapping = 1;
     PromiseT promise{CorePtrT{NoRefTag{}, this}};
     try {
       // We need to move func with capture on stack, because promise can be Set before func return
